@@ -104,7 +104,7 @@ class Ref:
         return [r[1], r[2]]
 
     # -- reference "earliest admissible occurrence after dt" for time / interval / group ----------
-    def next_time(self, e, dt: int, limit_days: int = 800):
+    def next_time(self, e, dt: int, limit_days: int = 3300):
         _, tod, sk, rp, f = e
         day0 = self.local(dt) // DAY - 2
         best = None
